@@ -128,12 +128,17 @@ def run(case):
 
     n_sites = int(max(states.max(), 0)) + 1
     tr = Transitions(trajectory=None, diff_trajectory=None, sites=dummy_sites(n_sites), events=events, states=states, inner_states=inner)
-    prev = gcall(tr.states_prev)
-    nxt = gcall(tr.states_next)
-    if not np.array_equal(prev, oracle.ffill_model(states)):
-        raise Violation('states-prev', f'got {np.asarray(prev).T.tolist()} want {oracle.ffill_model(states).T.tolist()}')
-    if not np.array_equal(nxt, oracle.bfill_model(states)):
-        raise Violation('states-next', f'got {np.asarray(nxt).T.tolist()} want {oracle.bfill_model(states).T.tolist()}')
+    # the two views in a case-dependent order, each asked more than once (neither may disturb the other or itself)
+    order = [['prev', 'next', 'prev', 'next'], ['next', 'prev', 'next', 'prev'], ['next', 'next', 'prev', 'prev']][(int(np.abs(states).sum()) + int(np.abs(inner).sum()) + T) % 3]
+    for k_, which in enumerate(order):
+        if which == 'prev':
+            prev = gcall(tr.states_prev)
+            if not np.array_equal(prev, oracle.ffill_model(states)):
+                raise Violation('states-prev', f'got {np.asarray(prev).T.tolist()} want {oracle.ffill_model(states).T.tolist()} (views asked in the order {order[:k_ + 1]})')
+        else:
+            nxt = gcall(tr.states_next)
+            if not np.array_equal(nxt, oracle.bfill_model(states)):
+                raise Violation('states-next', f'got {np.asarray(nxt).T.tolist()} want {oracle.bfill_model(states).T.tolist()} (views asked in the order {order[:k_ + 1]})')
     if not np.array_equal(states, s_in):
         raise Violation('inputs-mutated', 'states modified by states_prev/states_next')
 
